@@ -1,14 +1,95 @@
 (* C18 -- String buffer cache never aliases live buffers and gives everything back.
-   Only statements; every proof is `exact <lemma>` into C18_Proofs.v. *)
+   Only statements; every proof is `exact <lemma>` into C18_Proofs.v / C18_Hist.v / C18_Lists.v.
+   Histories are arbitrary lists of calls  LAlloc n | LDealloc p n | LClearCache | LClearAll  with ARBITRARY pointers p
+   (a block id, whether or not the cache ever returned it, or a foreign pointer); `after ops` is the cache after them,
+   `trace ops` every call made on the underlying allocator since (and including) construction, `chks` the allocator's own
+   bookkeeping of such a trace (sizes by block id, ids given back). *)
 From Coq Require Import NArith Arith Bool List.
-From CppUVerif Require Import gen.Gen_C18 C18_Model C18_Lists C18_Inv C18_Sim C18_Proofs.
+From CppUVerif Require Import gen.Gen_C18 C18_Model C18_Lists C18_Inv C18_Sim C18_Proofs C18_Hist.
 Import ListNotations.
 Local Open Scope N_scope.
 
-(* for every history the model's observation satisfies the model-free statement of the property: no buffer handed out
+(* for every scenario the model's observation satisfies the model-free statement of the property: no buffer handed out
    overlaps one in use, capacity >= request, reuse only within the size class, blocks go back at most once, with their size
    and never while in use, clearCache returns every idle block, clearAll everything obtained since construction,
    destruction the node array, and the first unknown release (and only it) warns *)
 Theorem C18_run_meets_spec : forall s, valid s = true -> spec s (run s) = true.
 Proof. exact run_meets_spec. Qed.
 Print Assumptions C18_run_meets_spec.
+
+(* in every reachable state the allocator accepted every call so far, all headers and buffers in all lists are pairwise
+   distinct, the lists of a node hold only blocks obtained with that node's size (headers with the header size), the
+   non-cached list only blocks above the cached bound, and nothing in a list has been given back *)
+Theorem C18_inv : forall ops, exists bk, books_of ops = Some bk /\
+  NoDup (all_ids (after ops)) /\
+  (forall nd b, In nd (s_cache (after ops)) -> In b (n_free nd ++ n_used nd) ->
+     szof (fst bk) (b_mem b) = Some (n_size nd) /\ szof (fst bk) (b_hdr b) = Some block_hdr_size /\
+     ~ In (b_mem b) (snd bk) /\ ~ In (b_hdr b) (snd bk)) /\
+  (forall b, In b (s_non (after ops)) ->
+     (exists a, cached_bound < a /\ szof (fst bk) (b_mem b) = Some a) /\ szof (fst bk) (b_hdr b) = Some block_hdr_size /\
+     ~ In (b_mem b) (snd bk) /\ ~ In (b_hdr b) (snd bk)).
+Proof. exact inv_all. Qed.
+Print Assumptions C18_inv.
+
+(* the buffer alloc returns was on no used list and not among the non-cached blocks before the call *)
+Theorem C18_no_alias : forall ops n id, o_ret (snd (alloc (after ops) n)) = Some id -> ~ In id (used_mems (after ops)).
+Proof. exact no_alias. Qed.
+Print Assumptions C18_no_alias.
+
+(* alloc always returns the start of a block the allocator handed to the cache, not given back, of at least the
+   requested size *)
+Theorem C18_capacity : forall ops n, exists id bk a,
+  o_ret (snd (step (after ops) (LAlloc n))) = Some id /\ books_of (ops ++ [LAlloc n]) = Some bk /\
+  szof (fst bk) id = Some a /\ n <= a /\ ~ In id (snd bk).
+Proof. exact capacity. Qed.
+Print Assumptions C18_capacity.
+
+(* two requests ever served by the same block are of the same size class *)
+Theorem C18_reuse_same_class : forall ops id n1 n2,
+  In (id, n1) (handouts ops (outs_of ops)) -> In (id, n2) (handouts ops (outs_of ops)) -> cls n1 = cls n2.
+Proof. exact reuse_same_class. Qed.
+Print Assumptions C18_reuse_same_class.
+
+(* a request served without an allocator call took its block from the free list of the node of its own class *)
+Theorem C18_reuse_from_class_node : forall ops n id, is_cached n = true ->
+  o_ret (snd (alloc (after ops) n)) = Some id -> o_evs (snd (alloc (after ops) n)) = [] ->
+  exists nd, In nd (s_cache (after ops)) /\ cls n = Some (n_size nd) /\ In id (mems (n_free nd)).
+Proof. exact reuse_from_class_node. Qed.
+Print Assumptions C18_reuse_from_class_node.
+
+(* releasing a pointer that is not on the searched list (the used list of the class of the GIVEN size, or the non-cached
+   list) changes no list, calls the allocator not at all, sets the flag and prints only if the flag was clear *)
+Theorem C18_unknown_release : forall st p n, (forall b, In b (searched st n) -> mem_is b p = false) ->
+  dealloc st p n = ({| s_cache := s_cache st; s_non := s_non st; s_warned := true; s_next := s_next st |},
+                    mk_out [] None (negb (s_warned st))).
+Proof. exact unknown_release_inert. Qed.
+Print Assumptions C18_unknown_release.
+
+(* at most one warning over a whole history *)
+Theorem C18_warn_once : forall ops, (warns (outs_of ops) <= 1)%nat.
+Proof. exact warn_once. Qed.
+Print Assumptions C18_warn_once.
+
+(* after clearAll and destruction the allocator's books are balanced: the calls were all legal (every free of a block
+   obtained, not yet given back, with its size), no id was given back twice, and every id obtained has been given back *)
+Theorem C18_all_returned : forall ops, exists bk,
+  chks ([], []) (trace (ops ++ [LClearAll]) ++ o_evs (snd (destroy (after (ops ++ [LClearAll]))))) = Some bk /\
+  NoDup (snd bk) /\ (forall id, In id (snd bk) <-> id < N.of_nat (length (fst bk))).
+Proof. exact all_returned. Qed.
+Print Assumptions C18_all_returned.
+
+(* clearCache gives back exactly the blocks of the free lists (with their node's size), empties them, leaves the used
+   lists and the non-cached list alone, and nothing still listed has been given back *)
+Theorem C18_clear_cache_returns : forall ops,
+  let st := after ops in let st' := fst (clear_cache st) in let x := snd (clear_cache st) in
+  (forall nd b, In nd (s_cache st) -> In b (n_free nd) ->
+     In (EF (b_mem b) (n_size nd)) (o_evs x) /\ In (EF (b_hdr b) block_hdr_size) (o_evs x)) /\
+  s_cache st' = map keep_used (s_cache st) /\ s_non st' = s_non st /\
+  exists bk, books_of (ops ++ [LClearCache]) = Some bk /\ forall id, In id (all_ids st') -> ~ In id (snd bk).
+Proof. exact clear_cache_returns. Qed.
+Print Assumptions C18_clear_cache_returns.
+
+(* the code's head test + interior loop is "remove the first block whose buffer is the pointer" *)
+Theorem C18_unlink_is_remove_first : forall l p, unlink l p = remove_first l p.
+Proof. exact unlink_remove_first. Qed.
+Print Assumptions C18_unlink_is_remove_first.
